@@ -288,7 +288,35 @@ def gen(rng, idx, tier):
                     g["width"] = 120
     if skip:
         lib["public.skipExportGlyphs"] = skip
-    return {"stratum": stratum, "chain": chain,
+    # call history: the same writer OBJECTS first serve another font (a writer passed as an
+    # instance to several compiles); nothing of that font may show in this one
+    warmup = None
+    if stratum == "default" and rng.random() < 0.2:
+        wscripts = [rng.choice([s_ for s_ in S.ALL_SCRIPTS if s_ not in (scripts or [])] or S.ALL_SCRIPTS)]
+        danda = None
+        if rng.random() < 0.5:
+            # a character whose Script_Extensions name many scripts (DANDA, U+0964): Devanagari
+            # punctuation in the other font, Bengali punctuation in this one
+            wscripts = ["Deva"]
+            for n_, cp in (("ka-beng", 0x995), ("kha-beng", 0x996), ("danda", 0x964)):
+                if not any(g["name"] == n_ for g in glyphs):
+                    glyphs.append(S._spec(rng, n_, [cp]))
+            kerning = [k for k in kerning if k[:2] != ["danda", "danda"]] + [
+                ["danda", "danda", rng.choice([-30, 25])]]
+            if rng.random() < 0.3:
+                kerning.append(["ka-beng", "kha-beng", -20])
+            danda = S._spec(rng, "danda", [0x964])
+        wglyphs, wdesc = S.repertoire(rng, scripts=wscripts, n=4)
+        if danda:
+            wglyphs.append(danda)
+        wnames = [g["name"] for g in wglyphs if g["name"] != ".notdef"]
+        wk, wg = gen_kerning(rng, wnames, [])
+        if danda:
+            wk = [list(k) for k in wk] + [["danda", "danda", -10], ["ka-deva", "danda", -5]]
+            wk = [list(v) for v in {(a, b): (a, b, c) for a, b, c in wk}.values()]
+        warmup = {"glyphs": wglyphs, "kerning": wk, "groups": wg, "features": "", "lib": {},
+                  "info": {"unitsPerEm": 1000, "familyName": "W", "styleName": "R"}}
+    return {"stratum": stratum, "chain": chain, "warmup": warmup,
             "ufo": {"glyphs": glyphs, "kerning": kerning, "groups": groups, "features": features,
                     "lib": lib, "info": {"unitsPerEm": 1000, "familyName": "T", "styleName": "R"}},
             "rules": rules, "lib": rng.choice(["defcon", "ufoLib2"]),
@@ -356,6 +384,15 @@ def run(case):
     writers = [KernFeatureWriter(quantization=q)]
     if "public.openTypeCategories" in spec["lib"]:
         writers.append(GdefFeatureWriter())
+    if case.get("warmup"):
+        try:
+            ufo2ft.compileTTF(build_ufo(case["warmup"], case["lib"]), featureWriters=writers,
+                              useProductionNames=False)
+            bump("writer_objects_reused_after_other_font")
+            if any(g["name"] == "danda" for g in spec["glyphs"]):
+                bump("writer_objects_reused_shared_multi_script_character")
+        except Exception:  # noqa: BLE001 - the other font is not the subject
+            bump("warmup_compile_failed")
     try:
         tt = ufo2ft.compileTTF(font, featureWriters=writers, useProductionNames=False)
         buf = io.BytesIO()
